@@ -11,6 +11,7 @@ import (
 	"github.com/prometheus/prometheus/model/labels"
 
 	"github.com/thanos-community/promql-engine/execution/model"
+	"github.com/thanos-community/promql-engine/verifhook"
 )
 
 type errorChan chan error
@@ -82,6 +83,7 @@ func (c *coalesceOperator) Next(ctx context.Context) ([]model.StepVector, error)
 			defer c.wg.Done()
 
 			in, err := o.Next(ctx)
+			verifhook.Point("coalesce.merge", opIdx)
 			if err != nil {
 				errChan <- err
 				return
@@ -154,6 +156,7 @@ func (c *coalesceOperator) loadSeries(ctx context.Context) error {
 				}
 
 			}()
+			verifhook.Point("coalesce.series", i)
 			series, err := c.operators[i].Series(ctx)
 			if err != nil {
 				errChan <- err
